@@ -33,7 +33,8 @@ ASSUMPTIONS = [
     "series (a category absent from both is passed explicitly via ncat)",
     "KGE uses the 2009 formulation (ratio of standard deviations, any common ddof)",
 ]
-OBLIGATIONS = {"bias:standard": 50, "bias:normalised": 50, "bias:log": 50,
+OBLIGATIONS = {"order:obs-sorted": 10, "order:opposite": 10, "order:constant-sim": 10,
+               "bias:standard": 50, "bias:normalised": 50, "bias:log": 50,
                "nse": 50, "kge": 50, "corr:Pearson:mean": 30,
                "corr:Pearson:median": 30, "corr:Spearman:mean": 30,
                "corr:Spearman:median": 30, "excludenull:nan": 30,
@@ -455,6 +456,11 @@ def run_identities_case(ctx, case):
     for nm_, fn, kw in (("bias", m.bias, {}), ("bias-normalised", m.bias,
                                                {"type": "normalised"}),
                         ("kge", m.kge, {})):
+        if nm_ == "kge" and not float(np.std(sim)) > 1e-6 * float(np.max(np.abs(sim))):
+            # a constant simulation has no correlation with anything: whether the
+            # library's "standard deviation below 1e-10" guard fires is a rounding matter
+            ctx.extra["kge.scale-invariance-skipped-constant-sim"] += 1
+            continue
         k0 = call(fn, obs, sim, **kw)
         k1 = call(fn, s * obs, s * sim, **kw)
         ctx.check(f"{nm_}.scale-invariant", eq(k0, k1, 1e-11 * co),
@@ -550,7 +556,22 @@ def run(ctx):
             break
         positive = rng.random() < 0.7
         n = int(rng.integers(2, 30)) if rng.random() < 0.6 else int(rng.integers(2, 501))
+        if it % 6 == 4:
+            n = [2, 3, 4, 2][(it // 6) % 4]          # the smallest series
         obs, sim = gen_series(rng, n, positive)
+        # special orders: sorted observations, simulation in the same / opposite order,
+        # constant simulation
+        sp = (it // 2) % 6
+        if sp == 1:
+            o_ = np.argsort(obs, kind="stable")
+            obs, sim = obs[o_], sim[o_]
+            ctx.tag("order:obs-sorted")
+        elif sp == 2:
+            obs, sim = np.sort(obs), np.sort(sim)[::-1].copy()
+            ctx.tag("order:opposite")
+        elif sp == 3:
+            sim = np.full_like(sim, float(sim[0]))
+            ctx.tag("order:constant-sim")
         tnm, tkw = gen_transform(rng, positive)
         case = {"kind": "scores", "obs": obs, "sim": sim, "trans": [tnm, tkw],
                 "excludenull": False}
